@@ -780,7 +780,7 @@ const maxNodes = 4
 // subsets to the rules; otherwise the short list of scVectors. The tiers are sized for roughly
 // 300 (quick) / 5000 (thorough) core-seconds; a soft deadline caps them on a loaded machine.
 func levels(quick bool) []level {
-	all := []int{0, 1, 2, 3}
+	all := []int{0, 1, 2, 3} // rune, rune+fold, byte, byte+fold
 	noFold := []int{0, 2}
 	if quick {
 		return []level{
@@ -792,7 +792,7 @@ func levels(quick bool) []level {
 	return []level{
 		{1, 1, true, all}, {1, 2, true, all}, {2, 2, true, all}, {1, 3, true, all},
 		{2, 3, true, all}, {1, 4, true, all}, {2, 4, true, all}, {3, 3, true, all},
-		{3, 4, false, all}, {2, 5, false, noFold},
+		{3, 4, false, all}, {2, 5, false, all},
 	}
 }
 
